@@ -1,5 +1,8 @@
 mod c01;
 mod c02;
+mod c03;
+mod c04;
+mod gram;
 
 use pvkit::session::CheckDef;
 
@@ -7,5 +10,7 @@ fn main() {
     pvkit::main(&[
         CheckDef { id: "C01", level: "exploration", run: c01::run },
         CheckDef { id: "C02", level: "exploration", run: c02::run },
+        CheckDef { id: "C03", level: "exploration", run: c03::run },
+        CheckDef { id: "C04", level: "exploration", run: c04::run },
     ]);
 }
